@@ -4,6 +4,7 @@ import (
 	"fmt"
 	"strings"
 
+	"github.com/iancoleman/strcase"
 	"github.com/pentops/j5/gen/j5/sourcedef/v1/sourcedef_j5pb"
 	"github.com/pentops/j5/internal/bcl/errpos"
 	"github.com/pentops/j5/internal/j5s/sourcewalk"
@@ -132,10 +133,6 @@ func (cc *summaryWalker) collectFileRefs(sourceFile *sourcedef_j5pb.SourceFile) 
 			return nil
 		},
 		Enum: func(node *sourcewalk.EnumNode) error {
-			valMap := make(map[string]int32)
-			for _, value := range node.Schema.Options {
-				valMap[node.Schema.Prefix+value.Name] = value.Number
-			}
 			cc.addExport(enumTypeRef(node))
 			return nil
 		},
@@ -172,16 +169,34 @@ func oneofTypeRef(node *sourcewalk.OneofNode) *TypeRef {
 }
 
 func enumTypeRef(node *sourcewalk.EnumNode) *TypeRef {
-	valMap := make(map[string]int32)
-	for _, value := range node.Schema.Options {
-		valMap[node.Schema.Prefix+value.Name] = value.Number
+	// names and numbers as visitEnumNode assigns them
+	prefix := node.Schema.Prefix
+	if prefix == "" {
+		prefix = strcase.ToScreamingSnake(node.Schema.Name) + "_"
+	}
+	fullName := func(name string) string {
+		if !strings.HasPrefix(name, prefix) {
+			return prefix + name
+		}
+		return name
+	}
+	valMap := map[string]int32{}
+	options := node.Schema.Options
+	if len(options) > 0 && options[0].Number == 0 && strings.HasSuffix(options[0].Name, "UNSPECIFIED") {
+		valMap[fullName(options[0].Name)] = 0
+		options = options[1:]
+	} else {
+		valMap[prefix+"UNSPECIFIED"] = 0
+	}
+	for idx, value := range options {
+		valMap[fullName(value.Name)] = int32(idx + 1)
 	}
 	return &TypeRef{
 		Name:     node.NameInPackage(),
 		Position: node.Source.GetPos(),
 
 		EnumRef: &EnumRef{
-			Prefix: node.Schema.Prefix,
+			Prefix: prefix,
 			ValMap: valMap,
 		},
 	}
